@@ -556,6 +556,8 @@ def _check_depend(ctx, dm, case, env, names, out, viol, symptom, reported):
     if not os.path.exists(ebuild):
         with open(ebuild, "w") as f:
             f.write(f"EAPI=8\nDESCRIPTION=vt\nSLOT=0\nsource '{obs_script}'\n")
+    from pkgcore.ebuild import processor
+
     pkg = _fake_pkg(ebuild)
     env = dict(env)
     env["PKGCORE_EBUILD_PHASES"] = tuple(pkg.eapi.phases.values())
@@ -573,14 +575,14 @@ def _check_depend(ctx, dm, case, env, names, out, viol, symptom, reported):
     try:
         try:
             with _AccountingAlarm(tee, "gen_metadata ", "gen_metadata reply"):
+                # ProcessorError/ProcessingInterruption = pkgcore reporting that the daemon refused or garbled the
+                # request: for an in-domain env that is the "rejected" symptom, not a crash of its own
                 res = core.guarded(ctx, case, lambda: ebp._run_depend_like_phase(
                     "gen_metadata", pkg, None, env=env, extra_commands={"key": receive_key}) or True,
-                    expected=(ebd.EbdHang,))
+                    expected=(ebd.EbdHang, processor.ProcessorError, processor.ProcessingInterruption))
         except ebd.EbdHang as e:
             hang = e
-        except Exception as e:  # noqa: BLE001  pkgcore's own protocol errors (ProcessorError, UnhandledCommand...)
-            if core.pkg_frame_bucket(e) is None:
-                raise
+        except (processor.ProcessorError, processor.ProcessingInterruption) as e:
             res = e
     finally:
         written = "".join(tee.rec)
@@ -675,6 +677,9 @@ def replay(ctx, case):
 
 def shrink_case(ctx, bucket, case):
     """greedy: single variable, then drop characters / elements while the same bucket is reported"""
+    if len(case["items"]) == 1 and sum(len(e) for e in (case["items"][0][1] if isinstance(case["items"][0][1], list)
+                                                      else [case["items"][0][1]])) <= 3:
+        return None  # already minimal (e.g. a committed replay)
     dm = Daemon(ctx)
     quiet = core.Ctx(ctx.pid, ctx.tier, ctx.seed)
 
@@ -694,7 +699,7 @@ def shrink_case(ctx, bucket, case):
         else:
             return None
         budget = 60
-        t_end = time.time() + 60
+        t_end = time.time() + 40
         changed = True
         while changed and budget > 0 and time.time() < t_end:
             changed = False
